@@ -97,9 +97,11 @@ type FuncContract struct {
 	Params []string // declared parameter names for externs (receiver first when a method)
 	Cuts   []Clause // normal return only if these hold (otherwise the callee panics)
 	Fresh  bool     // result is a freshly allocated object
+	Uses   []string // lemmas made available to the proof of this function
 }
 
 type SpecFun struct {
+	Opaque bool
 	Name   string
 	Params []Param
 	Ret    string
@@ -429,7 +431,7 @@ func parseExpr(src string) (e Expr, err error) {
 var itemKw = map[string]bool{"func": true, "extern": true, "spec": true, "axiom": true, "lemma": true,
 	"property": true, "opaque": true, "ghost": true, "theory": true, "import": true}
 var clauseKw = map[string]bool{"requires": true, "ensures": true, "modifies": true, "loop": true, "call": true,
-	"nopanic": true, "trusted": true, "pure": true, "cut": true, "induction": true, "fresh": true, "trigger": true}
+	"nopanic": true, "trusted": true, "pure": true, "cut": true, "induction": true, "fresh": true, "trigger": true, "uses": true}
 
 type rawLine struct {
 	kw    string
@@ -570,6 +572,11 @@ func parseSpecFile(path string) (*SpecFile, error) {
 			}
 			sf.Funcs = append(sf.Funcs, cur)
 		case "spec":
+			opaque := false
+			if strings.HasPrefix(l.text, "opaque ") {
+				opaque = true
+				l.text = strings.TrimSpace(l.text[7:])
+			}
 			m := specHeadRe.FindStringSubmatch(l.text)
 			if m == nil {
 				return nil, fmt.Errorf("%s: bad spec head %q", l.where, l.text)
@@ -578,7 +585,7 @@ func parseSpecFile(path string) (*SpecFile, error) {
 			if err != nil {
 				return nil, fmt.Errorf("%s: %v", l.where, err)
 			}
-			s := &SpecFun{Name: m[1], Params: ps, Ret: strings.TrimSpace(m[3]), Where: l.where, Src: l.text}
+			s := &SpecFun{Name: m[1], Params: ps, Ret: strings.TrimSpace(m[3]), Where: l.where, Src: l.text, Opaque: opaque}
 			if m[5] != "" {
 				if s.Body, err = parseExpr(m[5]); err != nil {
 					return nil, fmt.Errorf("%s: %v", l.where, err)
@@ -725,6 +732,15 @@ func parseSpecFile(path string) (*SpecFile, error) {
 				lc.Modifies = append(lc.Modifies, cs...)
 			default:
 				return nil, fmt.Errorf("%s: unknown loop clause %q", l.where, f[1])
+			}
+		case "uses":
+			if cur == nil {
+				return nil, fmt.Errorf("%s: uses outside func", l.where)
+			}
+			for _, n := range strings.Split(l.text, ",") {
+				if n = strings.TrimSpace(n); n != "" {
+					cur.Uses = append(cur.Uses, n)
+				}
 			}
 		case "nopanic":
 			cur.NoPanic = true
